@@ -61,14 +61,14 @@ PROPS = {
     "C07": dict(
         domains=[("retry", "write", 6000, 100000), ("retry", "exhaustive", 900, 900), ("retry", "conn", 1500, 20000), ("conn", "cwrite", 150, 1500), ("conn", "lw", 200, 2000)],
         relevant=["C07:"],
-        theorems=["DV.Props.C07."+t for t in ["C07_retry","C07_retry_stops","C07_retry_conn","C07_failed_write_is_final","C07_conn_next","C07_whole","C07_exclusive","C07_once_ordered","C07_quiescent","C07_gen"]],
-        gen_obligations=["Gen.responseWriteLocked","Gen.MessageBufferLength","Gen.responseWriteReturns","Gen.serverResetCalls","Gen.connBufferSources"],
+        theorems=["DV.Props.C07."+t for t in ["C07_retry","C07_retry_stops","C07_retry_conn","C07_failed_write_is_final","C07_conn_next","C07_whole","C07_exclusive","C07_once_ordered","C07_quiescent","C07_pool_exclusive","C07_pool_double_put_counterexample","C07_pool_gen","C07_gen"]],
+        gen_obligations=["Gen.responseWriteLocked","Gen.MessageBufferLength","Gen.responseWriteReturns","Gen.serverResetCalls","Gen.connBufferSources","Gen.poolUsers","Gen.poolPrimitives"],
         trusted=["Model.Retry hand-written from message.go writeRetry/writeStreamRetry; Model.Writers: LTS of response.Write (server.go); Model.Bufio: response.Write over bufio.Writer (Write / Flush / sticky error as in the Go standard library, buffer size 4096 of bufio.NewWriter - modelled, not verified)"],
     ),
     "C09": dict(
         domains=[("mux", "subsets", 6144, 24576), ("mux", "random", 6000, 100000), ("mux", "seq", 4000, 60000)],
         relevant=["C09:"],
-        theorems=["DV.Props.C09."+t for t in ["C09_decision","C09_only_registered","C09_lastwins","C09_gen"]],
+        theorems=["DV.Props.C09."+t for t in ["C09_decision","C09_only_registered","C09_lastwins","C09_serve","C09_all_one_key","C09_all_replaced_across_apis","C09_gen"]],
         gen_obligations=["Gen.allCmdIndex","Gen.capErrorReports","Gen.muxServeRLockDeferred"],
         trusted=["Model.Mux hand-written from server.go ServeMux; command resolution through the C17 dictionary model"],
     ),
@@ -127,8 +127,8 @@ PROPS = {
         domains=[("conn", "faults", 500, 6000), ("conn", "faults2", 300, 4000), ("conn", "multi", 300, 4000), ("conn", "accept", 60, 600), ("conn", "lw", 300, 4000), ("conn", "xtalk", 40, 400)],
         thorough_extra=[("conn", "cnall5", 1, 1)],
         relevant=["C15:"],
-        theorems=["DV.Props.C15."+t for t in ["C15_panic_contained","C15_bad_input_contained","C15_one_report","C15_fault_cleanup","C15_frame","C15_mux_lock","C15_mux_lock_needs_defer","C15_listener","C15_listener_perm","C15_write_contained","C15_late_write_fails","C15_write_needs_own_writer","C15_gen"]],
-        gen_obligations=["Gen.serveDeferRecover","Gen.serveDeferClose","Gen.serveDeferNotify","Gen.muxServeRLockDeferred","Gen.acceptRetryCond","Gen.acceptBackoffFirstMs","Gen.acceptBackoffFactor","Gen.acceptBackoffMaxMs","Gen.acceptResetsDelay","Gen.acceptSpawnsServe","Gen.serveDefersListenerClose","Gen.capErrorReports","Gen.connBufferSources","Gen.tlsHandshakeSites"],
+        theorems=["DV.Props.C15."+t for t in ["C15_panic_contained","C15_bad_input_contained","C15_one_report","C15_fault_cleanup","C15_frame","C15_mux_lock","C15_mux_lock_needs_defer","C15_listener","C15_listener_perm","C15_write_contained","C15_late_write_fails","C15_write_needs_own_writer","C15_pool_exclusive","C15_pool_double_put_counterexample","C15_pool_gen","C15_gen"]],
+        gen_obligations=["Gen.serveDeferRecover","Gen.serveDeferClose","Gen.serveDeferNotify","Gen.muxServeRLockDeferred","Gen.acceptRetryCond","Gen.acceptBackoffFirstMs","Gen.acceptBackoffFactor","Gen.acceptBackoffMaxMs","Gen.acceptResetsDelay","Gen.acceptSpawnsServe","Gen.serveDefersListenerClose","Gen.capErrorReports","Gen.connBufferSources","Gen.tlsHandshakeSites","Gen.poolUsers"],
         trusted=CONN_TRUST + ["Model.Listener hand-written from Server.Serve's accept loop; back-off constants regenerated",
                               "Model.ConnWrite: writer objects and the transports they point at (Server.newConn, response.Write); that each connection allocates its own bufio.Writer is the regenerated fact Gen.connBufferSources"],
     ),
@@ -136,7 +136,7 @@ PROPS = {
         domains=[("alias", "leaf", 4000, 60000), ("alias", "hist", 1500, 20000), ("smserver", "hist", 800, 10000)],
         relevant=["C06:"],
         theorems=["DV.Props.C06."+t for t in ["C06_owned","C06_unchanged","C06_private_buffer","C06_gen","C06_current","C06_alias_counterexample"]],
-        gen_obligations=["Gen.sliceKinded","Gen.decoderAliasing","Gen.groupedAVPFields","Gen.bodyBuffer"],
+        gen_obligations=["Gen.sliceKinded","Gen.decoderAliasing","Gen.groupedAVPFields","Gen.bodyBuffer","Gen.syncPools"],
         trusted=CODEC_TRUST + ["Model.Alias: memory model of the pooled reader buffers (sync.Pool may hand any pooled buffer to any later ReadMessage); which decoders copy is read from the source by the extractor and checked behaviourally per data type"],
     ),
     "C19": dict(
